@@ -6,7 +6,7 @@ use crate::asm::*;
 use crate::core::*;
 use crate::disk::*;
 use crate::model::*;
-use crate::monitor::{ShortCircuit, TxCtx};
+use crate::monitor::{ForceHalt, ShortCircuit, TxCtx};
 use crate::sys::*;
 use crate::world::*;
 use alloy_primitives::U512;
@@ -22,6 +22,9 @@ pub struct TxOp {
     pub faults: FaultPlan,
     #[serde(default)]
     pub short_circuits: Vec<ShortCircuit>,
+    /// F3b: the inspector halts the running frame from `step_end`
+    #[serde(default)]
+    pub force_halt: Option<ForceHalt>,
     /// use transact_commit (true) or transact + explicit commit (false)
     #[serde(default)]
     pub via_commit: bool,
@@ -160,7 +163,12 @@ impl Engine for TxSim {
                 }
             }
             let coinbase = if rng.chance(1, 5) { Some(*rng.pick(&world.universe)) } else { None };
-            ops.push(TxOp { tx, faults, short_circuits, via_commit: rng.chance(1, 4), probe_expect: None, coinbase });
+            let force_halt = if self.focus != "C07" && rng.chance(1, 8) {
+                Some(ForceHalt { at_step: if rng.bool() { rng.below(12) } else { rng.below(120) }, result: rng.pick(&["stop", "revert", "halt"]).to_string() })
+            } else {
+                None
+            };
+            ops.push(TxOp { tx, faults, short_circuits, force_halt, via_commit: rng.chance(1, 4), probe_expect: None, coinbase });
         }
         if self.focus == "C07" {
             // driver: sibling calls/creates with bounded gas, then the depth prober
@@ -211,7 +219,7 @@ impl Engine for TxSim {
             tx.gas_price = world.block.basefee;
             // the sender must afford gas_limit * price: use price = basefee and give it funds
             world.disk.accounts.get_mut(&world.eoas[0]).unwrap().balance = U256::MAX >> 8;
-            ops.push(TxOp { tx, faults: FaultPlan::default(), short_circuits: vec![], via_commit: false, probe_expect: Some(1023), coinbase: None });
+            ops.push(TxOp { tx, faults: FaultPlan::default(), short_circuits: vec![], force_halt: None, via_commit: false, probe_expect: Some(1023), coinbase: None });
         }
         TxCase { world, ops }
     }
@@ -257,6 +265,11 @@ pub fn shrink_tx_case(case: &TxCase) -> Vec<TxCase> {
         if !op.faults.is_empty() {
             let mut c = case.clone();
             c.ops[i].faults = FaultPlan::default();
+            out.push(c);
+        }
+        if op.force_halt.is_some() {
+            let mut c = case.clone();
+            c.ops[i].force_halt = None;
             out.push(c);
         }
         if !op.short_circuits.is_empty() {
@@ -403,6 +416,7 @@ pub fn run_monitor_case(case: &TxCase, stats: &mut Stats, focus: &str) -> Vec<Vi
             authorities: valid_authorities(tx, w.cfg.chain_id),
         };
         sys.monitor().unwrap().begin_tx(ctx, op.short_circuits.clone());
+        sys.monitor().unwrap().force_halt = op.force_halt.clone();
         sys.bottom.arm(op.faults.clone());
         let fired_before = sys.bottom.fired();
         // ---- run
